@@ -27,6 +27,7 @@ pub fn profile(name: &str) -> Option<GenFn> {
         "timeout0" => genp::timeout0,
         "stoprace" => genp::stoprace,
         "bigburst" => genp::bigburst,
+        "joinrace" => genp::joinrace,
         _ => return None,
     })
 }
